@@ -31,7 +31,8 @@ class Case:
     """one arranged pre-state family of one function under contract.
     run(ctx) executes the real code on it and returns [(obligation name, goal)]."""
 
-    def __init__(self, key, run, functions=(), group=None, info=None, expect_paths_min=1, canary=False):
+    def __init__(self, key, run, functions=(), group=None, info=None, expect_paths_min=1, canary=False,
+                 fallback=None):
         self.key = key
         self.run = run
         self.functions = list(functions)
@@ -39,6 +40,9 @@ class Case:
         self.info = info or {}
         self.expect_paths_min = expect_paths_min
         self.canary = canary
+        # fallback(): cases that together cover this one with abstract sub-terms unfolded one level (each class of
+        # the typing set, children abstract); used only when this case is outside the engine's reach
+        self.fallback = fallback
 
 
 def _structured(v, depth=0):
@@ -340,6 +344,26 @@ def _dead(case, why):
 
 
 def run_cases(cases, confirm=False, procs=None):
+    """run the cases; a case that is outside the engine's reach because the code looks inside an abstract sub-term
+    is replaced by its fallback family (the sub-term unfolded one level, per class)"""
+    results = _run_cases(cases, confirm, procs)
+    out = []
+    extra = []
+    for c, r in zip(cases, results):
+        if r["error"] and r["error"].startswith("unsupported") and "abstract node" in r["error"] and c.fallback:
+            fam = c.fallback()
+            extra.append((c, r, fam))
+        else:
+            out.append(r)
+    for c, r, fam in extra:
+        sub = _run_cases(fam, confirm, procs)
+        for s_ in sub:
+            s_["unfolded_from"] = c.key
+        out.extend(sub)
+    return out
+
+
+def _run_cases(cases, confirm=False, procs=None):
     """run cases in a fork pool (z3 terms live in the child; results are plain data).  A worker that dies
     (solver segfault) must never hang the run: the unfinished cases are re-run one per fresh process and the one
     that kills its process is reported as a checker failure for that case."""
